@@ -643,3 +643,4 @@ pub(crate) fn set_top_stamp(l: &ZalsaLocal, d: Durability, r: Revision) {
     // SAFETY: not reentrant
     unsafe { l.with_query_stack_unchecked_mut(|stack| crate::active_query::verif::set_stamp(stack.last_mut().unwrap(), d, r)) }
 }
+
